@@ -58,3 +58,27 @@ REG.contract('C12', M, 'TestHarness.process_test_result', params={'self': Harnes
              note='exactly one counter is incremented, chosen by the classification; loggers are assumed not to touch the counters (none in the model)')
 REG.contract('C12', M, 'TestHarness.total_failure_count', params={'self': HarnessS},
              ensures=['result == self.fail_count + self.unexpectedpass_count + self.timeout_count'], floor=1)
+
+# ---- TestSubprocess._kill (what "the test is then terminated" means when the time limit has passed, --maxfail or Ctrl-C cut the run
+# short): the whole process GROUP of the test gets the termination signal first, whatever the state of the test's main process —
+# a test whose main process is gone may have left helpers behind that hold its output open —, and on every way out of the function
+# the two output readers are cancelled, so that `meson test` never waits for a pipe that a surviving helper keeps open
+KP = "[e for e in __trace__ if e[0] == 'killpg']"
+CN = "[e for e in __trace__ if e[0] == 'cancel']"
+SubpS = Struct('TestSubprocess', 'mesonbuild.mtest:TestSubprocess', _process=Obj, stdo_task=Opt(Obj), stde_task=Opt(Obj))
+_KILL_COMMON = [f"len({KP}) >= 1 and {KP}[0][1] == attr_pid(self._process) and {KP}[0][2] is signal.SIGTERM",
+                # nothing is asked of the process (wait, kill, returncode) before the group was signalled
+                "[e[0] for e in __trace__ if e[0] in ('killpg', 'wait', 'kill', 'read')][0] == 'killpg'",
+                f"all(e[1] == attr_pid(self._process) for e in {KP})",
+                # both readers are cancelled, exactly once each
+                f"len({CN}) == (0 if self.stdo_task is None else 1) + (0 if self.stde_task is None else 1)",
+                f"(self.stdo_task is None or any(e[1] is self.stdo_task for e in {CN})) and (self.stde_task is None or any(e[1] is self.stde_task for e in {CN}))"]
+REG.contract('C12', M, 'TestSubprocess._kill', params={'self': SubpS}, requires=['not fn_is_windows()', 'self.stdo_task is None or truthy(self.stdo_task)', 'self.stde_task is None or truthy(self.stde_task)'], opaque_fns={'is_windows': ([], Bool)},
+             ensures=_KILL_COMMON + ["result is None or result == 'Test process could not be killed.'",
+                                     # "could not be killed" is only said after SIGTERM, SIGKILL to the group and a direct kill were all tried
+                                     f"implies(result is not None, len({KP}) == 2 and {KP}[1][2] is signal.SIGKILL and len([e for e in __trace__ if e[0] == 'kill']) == 1)"],
+             on_raise=_KILL_COMMON[3:], raises={'Exception': 'True'}, exact_raises=False,
+             effects={'killpg': ['ProcessLookupError'], 'wait_for': {'returns': Obj, 'raises': ['TimeoutError']}},
+             method_effects={'wait': {'returns': Obj, 'raises': []}, 'kill': ['ProcessLookupError'], 'cancel': []},
+             opaque_attrs={'pid': Int}, volatile_attrs={'returncode': Opt(Int)}, floor=8,
+             note='POSIX host (is_windows() is read from the live module): SIGTERM to the process group first and unconditionally, SIGKILL to the group if the main process is still there, a direct kill as the last resort; the stdout / stderr reader tasks are cancelled on every way out')
